@@ -16,6 +16,7 @@ import (
 
 	"github.com/insomniacslk/dhcp/dhcpv4"
 	"github.com/insomniacslk/dhcp/dhcpv4/nclient4"
+	"verif/harness/cli"
 	"verif/harness/mon"
 	"verif/harness/ref4"
 	"verif/harness/sconn"
@@ -42,6 +43,7 @@ type server struct {
 type scenario struct {
 	Servers []server `json:"servers"`
 	Bcast   bool     `json:"broadcast_flag"`
+	Cfg     int      `json:"cfg"` // client logging configuration (cli.LogOpts4)
 }
 
 // notype: a plain BOOTP reply (no option 53); badtype: option 53 with two octets; inform: a message type no exchange
@@ -50,7 +52,7 @@ var discKinds = []string{"notype", "badtype", "inform", "offer", "offer", "offer
 var reqKinds = []string{"notype", "badtype", "inform", "ack", "ack", "nak", "ack-othersid", "ack-nosid", "offer-again", "ack-wrongxid", "nak-othersid", "undecodable", "silence"}
 
 func genScenario(rng *rand.Rand, maxServers, maxReact int) scenario {
-	sc := scenario{Bcast: rng.IntN(2) == 0}
+	sc := scenario{Bcast: rng.IntN(2) == 0, Cfg: rng.IntN(cli.NCfg)}
 	ns := rng.IntN(maxServers + 1)
 	for s := 0; s < ns; s++ {
 		sv := server{ID: [4]byte{10, 0, byte(s + 1), 1}, Addr: [4]byte{192, 168, byte(s + 1), byte(10 + rng.IntN(200))}}
@@ -283,7 +285,9 @@ func run(t *testing.T, sc scenario) (o outcome) {
 				}
 			}
 		}()
-		c, err := nclient4.NewWithConn(conn, mac, nclient4.WithTimeout(T), nclient4.WithRetry(2))
+		restore := cli.QuietStderr()
+		c, err := nclient4.NewWithConn(conn, mac, append([]nclient4.ClientOpt{nclient4.WithTimeout(T), nclient4.WithRetry(2)}, cli.LogOpts4(sc.Cfg)...)...)
+		restore()
 		if err != nil {
 			t.Fatal(err)
 		}
